@@ -160,6 +160,19 @@ func KillActor(a int) {
 	s.mu.Unlock()
 }
 
+// PendingOf returns the number of parked events of an actor.
+func PendingOf(actor int) int {
+	s.mu.Lock()
+	defer s.mu.Unlock()
+	n := 0
+	for _, e := range s.pending {
+		if e.Actor == actor && !s.dead[actor] {
+			n++
+		}
+	}
+	return n
+}
+
 // ParkForever blocks the calling goroutine until the execution is torn down
 // (used for crashed clients: their goroutines never run again).
 func ParkForever() {
